@@ -43,22 +43,22 @@ PROPS["C04"] = dict(
     mc=[
         dict(name="MC_Striped_generic_C2", module="MC_Striped", view="View", invariants=STRIPED_INV, actions=STRIPED_ACT,
              constants=dict(C=2, K=3, Variant='"generic"', T=2, Emit=False, MaxWrap=4),
-             quick=dict(MaxLen=4, MaxDepth=3), thorough=dict(MaxLen=5, MaxDepth=4)),
+             quick=dict(MaxLen=4, MaxDepth=3), thorough=dict(MaxLen=5, MaxDepth=3)),
         dict(name="MC_Striped_tiles_C2", module="MC_Striped", view="View", invariants=STRIPED_INV, actions=STRIPED_ACT,
              constants=dict(C=2, K=3, Variant='"tiles"', T=2, Emit=False, MaxWrap=4),
              quick=dict(MaxLen=5, MaxDepth=3), thorough=dict(MaxLen=6, MaxDepth=3)),
         dict(name="MC_Striped_tiles_C3", module="MC_Striped", view="View", invariants=STRIPED_INV, actions=STRIPED_ACT,
              constants=dict(C=3, K=3, Variant='"tiles"', T=2, Emit=False, MaxWrap=3),
-             quick=dict(MaxLen=5, MaxDepth=2), thorough=dict(MaxLen=7, MaxDepth=3)),
+             quick=dict(MaxLen=5, MaxDepth=2), thorough=dict(MaxLen=6, MaxDepth=3)),
         dict(name="MC_Striped_replay_C1", module="MC_Striped", view="View", invariants=STRIPED_INV, emit=True,
              constants=dict(C=1, K=3, Variant='"generic"', T=1, Emit=True, MaxWrap=3),
              quick=dict(MaxLen=3, MaxDepth=3), thorough=dict(MaxLen=4, MaxDepth=4)),
         dict(name="MC_Striped_replay_C2", module="MC_Striped", view="View", invariants=STRIPED_INV, emit=True,
              constants=dict(C=2, K=3, Variant='"generic"', T=2, Emit=True, MaxWrap=3),
-             quick=dict(MaxLen=4, MaxDepth=3), thorough=dict(MaxLen=5, MaxDepth=4)),
+             quick=dict(MaxLen=4, MaxDepth=3), thorough=dict(MaxLen=5, MaxDepth=3)),
         dict(name="MC_Striped_replay_C4", module="MC_Striped", view="View", invariants=STRIPED_INV, emit=True,
              constants=dict(C=4, K=3, Variant='"generic"', T=4, Emit=True, MaxWrap=3),
-             quick=dict(MaxLen=5, MaxDepth=2), thorough=dict(MaxLen=6, MaxDepth=3)),
+             quick=dict(MaxLen=5, MaxDepth=2), thorough=dict(MaxLen=6, MaxDepth=2)),
     ],
     record=True, trace="Trace_C04", shards=12,
     level_text="Bounded exhaustive model checking of the striping buffer (all sequences over 2 symbols + wildcard up to "
@@ -112,16 +112,16 @@ PROPS["C01"] = dict(
     mc=[
         dict(name="MC_Score_C2", module="MC_Score", invariants=["KernelRefines", "FullScanOK"], actions=["Pick"],
              constants=dict(C=2, Vals="{0, 1, 3}"),
-             quick=dict(MaxLen=4, MaxM=2, WVals="{0}"), thorough=dict(MaxLen=6, MaxM=2, WVals="{0}")),
+             quick=dict(MaxLen=4, MaxM=2, WVals="{0}"), thorough=dict(MaxLen=5, MaxM=2, WVals="{0}")),
         dict(name="MC_Score_C2_ninf", module="MC_Score", invariants=["KernelRefines", "FullScanOK"], actions=["Pick"],
              constants=dict(C=2, Vals="<- Vals01N", WVals="<- ValsN"),
-             quick=dict(MaxLen=4, MaxM=2), thorough=dict(MaxLen=6, MaxM=2)),
+             quick=dict(MaxLen=4, MaxM=2), thorough=dict(MaxLen=5, MaxM=2)),
         dict(name="MC_Score_C3_M3", module="MC_Score", invariants=["KernelRefines", "FullScanOK"], actions=["Pick"],
              constants=dict(C=3, Vals="{0, 1}", WVals="<- ValsN"),
-             quick=dict(MaxLen=4, MaxM=3), thorough=dict(MaxLen=7, MaxM=3)),
+             quick=dict(MaxLen=4, MaxM=3), thorough=dict(MaxLen=5, MaxM=3)),
         dict(name="MC_Score_C1_M4", module="MC_Score", invariants=["KernelRefines", "FullScanOK"], actions=["Pick"],
              constants=dict(C=1, Vals="{0, 2}", WVals="{0}"),
-             quick=dict(MaxLen=4, MaxM=3), thorough=dict(MaxLen=6, MaxM=4), tiers=("thorough",)),
+             quick=dict(MaxLen=4, MaxM=3), thorough=dict(MaxLen=5, MaxM=4), tiers=("thorough",)),
     ],
     record=True, trace="Trace_C01", shards=12,
     level_text="WindowScore is the D-layer definition; the column-wise kernel reading the striped matrix with look-ahead "
@@ -182,7 +182,7 @@ PROPS["C08"] = dict(
         dict(name="MC_Discrete_sat_M2", module="MC_Discrete", invariants=["NoUnderestimate", "NoLostHit"], actions=["Choose"],
              constants=dict(Kernel='"sat"', MaxM=2), quick=dict(MaxCell=4), thorough=dict(MaxCell=7)),
         dict(name="MC_Discrete_sat_M3", module="MC_Discrete", invariants=["NoUnderestimate", "NoLostHit"], actions=["Choose"],
-             constants=dict(Kernel='"sat"', MaxM=3), quick=dict(MaxCell=1), thorough=dict(MaxCell=3)),
+             constants=dict(Kernel='"sat"', MaxM=3), quick=dict(MaxCell=1), thorough=dict(MaxCell=2)),
         dict(name="MC_Discrete_neg_wrap", module="MC_Discrete", invariants=["NoUnderestimate"], expect_violation="NoUnderestimate",
              constants=dict(Kernel='"wrap"', MaxM=2, MaxCell=3)),
     ],
